@@ -67,6 +67,12 @@ def gen_ops(ctx):
             if not th and r.chance(3, 4) and not any(k in tag for k in ("bmp24", "bmp8p_h40_c0", "bmprle8", "bmp16bf565")): continue
             plan.add("bmp", tag + ":" + m, x, native, dims, n_variants=1)
     for (tag, b, native, dims) in seeds:
+        if dims != (3, 2) or not any(k in tag for k in ("bmp24", "bmp32td", "bmp16", "bmp8p_h40_c0", "bmp4p_h40_c0")): continue
+        for (m, x) in G.bmp_pair_mutations(b):
+            for (e, d) in (("conv", "file"), ("scan", "name"), ("image", "stream"), ("view", "sstream")):
+                dst = native if e != "conv" else "rgba8"
+                plan.ops.append(mkop("bmp", e, d, dst, x, (0, 0, 0, 0), dims if e == "view" else (0, 0))); plan.tags.append("bmp/%s:%s" % (tag, m))
+    for (tag, b, native, dims) in seeds:
         off = int.from_bytes(b[10:14], "little")
         start = 54 if ("p_h" in tag or "rle" in tag or "bf" in tag) else off      # palette / masks / run lengths
         for (m, x) in G.tail_corruptions(b, min(start, len(b) - 1), r, 3 if th else 1):
